@@ -1,11 +1,43 @@
-(* FmtPGP/Run.v — input [kind a b]: kind 0: header (a = ptype, b = length) -> [octets]; kind 1: literal (a = name bytes, b = content bytes)
-   -> [status packet spec_name spec_content spec_ok] *)
-From Relic Require Import Base.Prelude Base.Enc Base.Val Generated.FmtPGP_gen FmtPGP.Model.
+(* FmtPGP/Run.v — input [kind ...]:
+   kind 0: header (a = ptype, b = length) -> [octets spec_len]
+   kind 1: literal (a = name bytes, b = content bytes) -> [status packet spec_name spec_content spec_ok]
+   kind 2: cleartext signature [2 hash_name doc real_armor fake_armor sig] ->
+           [stream  detach_status detach_out  merge_status merge_out  hashed_text  canon_eq  read_ok]
+           stream = what pgptools.ClearSign writes for (doc, real_armor); detach = DetachClearSign; merge = MergeClearSign of `sig`
+           (status 0 = ok, 2 = token too long, 3 = no signature block, 77 = never returns);
+           canon_eq: the encoder's hashed text equals the RFC canonical text of the document;
+           read_ok: the RFC reader gets exactly (Hash header, canonical text, the lines of sig) out of the merged output
+   kind 3: raw stream through headClearSign / tailClearSign [3 stream] -> [head_status head_out tail_status tail_out] *)
+From Relic Require Import Base.Prelude Base.Enc Base.Val Generated.FmtPGP_gen FmtPGP.Model FmtPGP.ClearModel.
+Definition res_status {A} (r : result A) : Z := match r with Ok _ => 0 | Err e => e | Panic _ => 77 end.
+Definition res_bytes (r : result bytes) : bytes := match r with Ok b => b | _ => [] end.
+Definition list_bytes_eqb (a b : list bytes) : bool := list_eqb bytes_eqb a b.
+Definition run_clear (v : val) : val :=
+  let hn := vb (vnth 1 v) in let doc := vb (vnth 2 v) in let arm := vb (vnth 3 v) in let fake := vb (vnth 4 v) in let sig := vb (vnth 5 v) in
+  let d := detach_clearsign hn doc arm in
+  let m := merge_clearsign hn doc fake sig in
+  let hashed := enc_hashed doc in
+  let read_ok := match m with
+                 | Ok g => match spec_read_cleartext g with
+                           | Some c => list_bytes_eqb (ct_headers c) [rstrip (hash_hdr ++ hn)] && bytes_eqb (ct_text c) hashed && list_bytes_eqb (ct_sig c) (split_lf sig)
+                           | None => false
+                           end
+                 | _ => false
+                 end in
+  VL [VB (clearsign_stream hn doc arm); VZ (res_status d); VB (res_bytes d); VZ (res_status m); VB (res_bytes m); VB hashed;
+      of_bool (bytes_eqb hashed (spec_canon doc)); of_bool read_ok].
+Definition run_hooks (v : val) : val :=
+  let s := vb (vnth 1 v) in
+  let '(ho, hs) := head_clearsign s in
+  let t := tail_clearsign s in
+  VL [VZ hs; VB ho; VZ (res_status t); VB (res_bytes t)].
 Definition run (v : val) : val :=
   let k := vz (vnth 0 v) in
   if k =? 0 then VL [VB (pgp_hdr (vz (vnth 1 v)) (vz (vnth 2 v)));
                      match spec_new_len (tl (pgp_hdr (vz (vnth 1 v)) (vz (vnth 2 v)))) with
                      | Some (Definite n, []) => VZ n | Some (Partial _, _) => VZ (-2) | _ => VZ (-1) end]
+  else if k =? 2 then run_clear v
+  else if k =? 3 then run_hooks v
   else match pgp_literal (vb (vnth 1 v)) (vb (vnth 2 v)) with
        | Ok g => match spec_read_literal g with
                  | Some (n, c, r) => VL [VZ 0; VB g; VB n; VB c; VZ (if zlen r =? 0 then 1 else 0)]
